@@ -142,6 +142,43 @@ def chain(ctx, layout, ops, copies, do_model=True):
         ctx.nontriv("chain", tuple(layout), tuple(ops), tuple(copies))
 
 
+def flag_edits(ctx, count):
+    """the flags of an object are edited in place after its length was observed (as pinning a line does:
+    `tc.reducible[i] = False`), then a range is deleted from the SAME object: the deletion and len() follow the flags as they are now"""
+    rng = ctx.rng
+    for _ in range(count):
+        k = rng.randint(2, 9)
+        layout = [rng.random() < 0.8 for _ in range(k)]
+        obj = mk(tuple(layout))
+        seen = len(obj)
+        edits = []
+        for _e in range(rng.randint(1, 3)):
+            i = rng.randrange(k)
+            v = rng.random() < 0.3
+            obj.reducible[i] = v
+            layout[i] = v
+            edits.append((i, v))
+        n = sum(layout)
+        case = dict(layout_after_edits=enc_bools(layout), edits=edits, len_seen_before=seen, flag_edit=True)
+        try:
+            if len(obj) != n:
+                ctx.fail("len", f"len() = {len(obj)} after flags were edited in place; {n} reducible atoms now", case)
+                continue
+            a = rng.randint(0, n)
+            b = rng.randint(a, n)
+            snap_p, snap_r = list(obj.parts), list(obj.reducible)
+            obj.rmslice(a, b)
+        except Exception as exc:  # pylint: disable=broad-except
+            ctx.fail("raises", f"after in-place flag edits: {type(exc).__name__}: {exc}", case)
+            continue
+        exp_p, exp_r = spec_delete(snap_p, snap_r, a, b)
+        ctx.evaluations += 1
+        ctx.bump("flag-edits")
+        if obj.parts != exp_p or obj.reducible != exp_r or len(obj) != n - (b - a):
+            ctx.fail("wrong-atoms", f"flags edited in place to {enc_bools(snap_r)}, then rmslice({a},{b}) left parts={obj.parts} "
+                     f"flags={enc_bools(obj.reducible)} len={len(obj)}; expected parts={exp_p} flags={enc_bools(exp_r)}", dict(case, a=a, b=b))
+
+
 def chains(ctx, L, count, do_model=True):
     for k in range(1, L + 1):
         for layout in itertools.product((True, False), repeat=k):
@@ -189,6 +226,7 @@ def randoms(ctx, count, do_model=True):
 def search(ctx):
     """failing-input search: monitors only, on an enlarged space"""
     chains(ctx, 5, 20000, do_model=False)
+    flag_edits(ctx, 8000)
     sweep(ctx, 9, do_model=False)
     randoms(ctx, 20000, do_model=False)
 
@@ -200,6 +238,7 @@ def run(ctx) -> int:
     ctx.exhaustive.append(f"all layouts of length <= {L} x all (a,b) in [-len-2, len+2] u {{None}}")
     randoms(ctx, 60000 if ctx.thorough else 20000)
     chains(ctx, 5 if ctx.thorough else 4, 20000 if ctx.thorough else 4000)
+    flag_edits(ctx, 8000 if ctx.thorough else 2000)
     ctx.exhaustive.append("every pair of consecutive deletions on one object for all layouts of length <= 4 (quick) / 5 (thorough)")
     return common.decide(ctx, proof, RULE, search=search,
                          assumptions=["'a copy is independent' is a statement about Python aliasing: a pure model makes it true by construction, so that clause rests on the monitor of this run alone"])
